@@ -1,0 +1,87 @@
+//go:build verif
+// +build verif
+
+package pkcs12
+
+import (
+	"encoding/asn1"
+)
+
+// Hooks for the verification harness, property C17 (build tag "verif" only): the PKCS#12 key derivation
+// (pbkdf.go), the integrity MAC (mac.go), the PBE key / IV derivations (crypto.go) and the MAC decision of
+// getSafeContents. Nothing here changes the behaviour of existing code.
+
+// VerifPbkdfSHA1 is pbkdf as every caller in the package instantiates it: SHA-1, u = 20, v = 64.
+func VerifPbkdfSHA1(salt, password []byte, r int, ID byte, size int) []byte {
+	return pbkdf(sha1Sum, 20, 64, salt, password, r, ID, size)
+}
+
+// VerifPbkdfWith is pbkdf over a caller-supplied hash function and parameters u, v.
+func VerifPbkdfWith(hash func([]byte) []byte, u, v int, salt, password []byte, r int, ID byte, size int) []byte {
+	return pbkdf(hash, u, v, salt, password, r, ID, size)
+}
+
+// VerifFillWithRepeats exposes fillWithRepeats.
+func VerifFillWithRepeats(pattern []byte, v int) []byte { return fillWithRepeats(pattern, v) }
+
+// VerifMac runs computeMac for (salt, iterations, message, password) and then verifyMac on the stored
+// digest and on the digest with its first bit flipped.
+func VerifMac(salt, password []byte, iterations int, message []byte) (digest []byte, errGood, errBad error) {
+	var md macData
+	md.Mac.Algorithm.Algorithm = oidSHA1
+	md.MacSalt = salt
+	md.Iterations = iterations
+	if err := computeMac(&md, message, password); err != nil {
+		return nil, err, err
+	}
+	digest = append([]byte{}, md.Mac.Digest...)
+	errGood = verifyMac(&md, message, password)
+	if len(md.Mac.Digest) > 0 {
+		bad := append([]byte{}, md.Mac.Digest...)
+		bad[0] ^= 1
+		md.Mac.Digest = bad
+	}
+	errBad = verifyMac(&md, message, password)
+	return digest, errGood, errBad
+}
+
+// VerifPBE returns deriveKey and deriveIV of the PBE scheme: triple DES (des3 = true) or 40-bit RC2.
+func VerifPBE(des3 bool, salt, password []byte, iterations int) (key, iv []byte) {
+	var c pbeCipher = shaWith40BitRC2CBC{}
+	if des3 {
+		c = shaWithTripleDESCBC{}
+	}
+	return c.deriveKey(salt, password, iterations), c.deriveIV(salt, password, iterations)
+}
+
+// VerifPfxSealRaw is VerifPfxSeal with the password bytes as verifyMac / pbkdf receive them (nil, the
+// BMP encoding of a string, or anything else).
+func VerifPfxSealRaw(authSafe []byte, rawPassword []byte, salt []byte, iterations int) ([]byte, error) {
+	var pfx pfxPdu
+	var err error
+	pfx.Version = 3
+	pfx.MacData.Mac.Algorithm.Algorithm = oidSHA1
+	pfx.MacData.MacSalt = salt
+	pfx.MacData.Iterations = iterations
+	if err := computeMac(&pfx.MacData, authSafe, rawPassword); err != nil {
+		return nil, err
+	}
+	pfx.AuthSafe.ContentType = oidDataContentType
+	pfx.AuthSafe.Content.Class = 2
+	pfx.AuthSafe.Content.Tag = 0
+	pfx.AuthSafe.Content.IsCompound = true
+	if pfx.AuthSafe.Content.Bytes, err = asn1.Marshal(authSafe); err != nil {
+		return nil, err
+	}
+	return asn1.Marshal(pfx)
+}
+
+// VerifGetSafeContents runs getSafeContents with the encoded password and reports the number of safe bags
+// returned, the password it hands back, and the error.
+func VerifGetSafeContents(p12Data, encodedPassword []byte) (nbags int, updatedPassword []byte, isNilPassword bool, err error) {
+	bags, pw, err := getSafeContents(p12Data, encodedPassword)
+	return len(bags), pw, pw == nil, err
+}
+
+// VerifIsIncorrectPassword reports whether err is ErrIncorrectPassword.
+func VerifIsIncorrectPassword(err error) bool { return err == ErrIncorrectPassword }
